@@ -1030,6 +1030,15 @@ func (fr *frame) evalIndex(p *Path, e *ast.IndexExpr, commaOk bool) []PV {
 				}
 				q.safety("index", tAnd(tIntCmp(">=", it, mkInt(0)), tIntCmp("<", it, x.Len)), e.Pos())
 				out = append(out, PV{q, x.at(c, it)})
+			case *VariadicVal:
+				it, ok := asTerm(iv.V)
+				n, isC := it.C.(int64)
+				if !ok || !isC || x.Symbolic || n < 0 || int(n) >= len(x.Elems) {
+					c.untranslatable(e.Pos(), "index into a variadic parameter that is not a concrete list")
+					out = append(out, PV{q, OpaqueVal{"idx"}})
+					continue
+				}
+				out = append(out, PV{q, x.Elems[n]})
 			case *TableVal:
 				kt, ok := asTerm(iv.V)
 				if !ok {
@@ -1499,7 +1508,9 @@ func (fr *frame) execStmt(p *Path, s ast.Stmt) []*Path {
 		return fr.execSwitch(p, s)
 	case *ast.RangeStmt:
 		return fr.execRange(p, s)
-	case *ast.IncDecStmt, *ast.ForStmt, *ast.GoStmt, *ast.DeferStmt, *ast.SelectStmt, *ast.SendStmt, *ast.LabeledStmt, *ast.BranchStmt, *ast.TypeSwitchStmt:
+	case *ast.ForStmt:
+		return fr.execFor(p, s)
+	case *ast.IncDecStmt, *ast.GoStmt, *ast.DeferStmt, *ast.SelectStmt, *ast.SendStmt, *ast.LabeledStmt, *ast.BranchStmt, *ast.TypeSwitchStmt:
 		c.untranslatable(s.Pos(), fmt.Sprintf("statement %T", s))
 		return []*Path{p}
 	case *ast.EmptyStmt:
@@ -1807,7 +1818,7 @@ func (fr *frame) execRange(p *Path, s *ast.RangeStmt) []*Path {
 		case *TableVal:
 			out = append(out, fr.rangeTable(xv.P, s, x)...)
 		case *SliceVal:
-			out = append(out, fr.rangeSlice(xv.P, s, x)...)
+			out = append(out, fr.rangeSlice(xv.P, fr.rangeShape(s), x)...)
 		case *VariadicVal:
 			if x.Symbolic {
 				c.untranslatable(s.Pos(), "range over symbolic variadic parameter")
@@ -1815,9 +1826,16 @@ func (fr *frame) execRange(p *Path, s *ast.RangeStmt) []*Path {
 				continue
 			}
 			ps := []*Path{xv.P}
-			for _, el := range x.Elems {
+			for elIdx, el := range x.Elems {
 				var next []*Path
 				for _, q := range ps {
+					if s.Key != nil {
+						if id, ok := s.Key.(*ast.Ident); ok && id.Name != "_" {
+							if obj, ok := fr.info.Defs[id].(*types.Var); ok {
+								q.Vars[obj] = mkInt(int64(elIdx))
+							}
+						}
+					}
 					if s.Value != nil {
 						if id, ok := s.Value.(*ast.Ident); ok && id.Name != "_" {
 							if obj, ok := fr.info.Defs[id].(*types.Var); ok {
